@@ -116,6 +116,34 @@ const ASSUME: &[&str] = &[
     "single thread per case; real epoll/eventfd/timer heap, no mocks",
 ];
 
+
+// ------------------------------------------------------------------------------------------ C02: cross-thread causes
+// "A queued message / an unconsumed ping / a runnable task is dispatched" also has to hold when the cause is produced by
+// another thread while the loop is dispatching; single-threaded histories cannot show that. C02 therefore re-runs the
+// schedule families of C03 (ping), C04 (channel) and C10 (executor) and keeps exactly their lost-wake-up rules.
+
+/// Keep only the violations whose rule is in `keep`, re-labelled as C02's.
+pub fn xthread_relabel((info, v): CaseOutcome, keep: &[&str]) -> CaseOutcome {
+    let v = v.filter(|v| keep.contains(&v.rule.as_str())).map(|v| {
+        let sig = format!("C02.xthread/{}", v.sig);
+        Violation::new("C02.xthread", format!("[{}] {}", v.rule, v.detail)).with_sig(sig)
+    });
+    (info, v)
+}
+
+fn c02_xthread(ctx: &CheckCtx, _hp: &'static HistProp) -> Option<Found> {
+    crate::props::c04::xthread_for_c02(ctx).or_else(|| crate::props::c03::xthread_for_c02(ctx)).or_else(|| crate::props::c10::xthread_for_c02(ctx))
+}
+
+pub fn c02_replay(sub: &str, case: serde_json::Value) -> Result<Option<Violation>, String> {
+    match sub {
+        "xthread.chan" | "xthread.chan_free" => crate::props::c04::xthread_replay(sub, case),
+        "xthread.ping" => crate::props::c03::xthread_replay(sub, case),
+        "xthread.exec" => crate::props::c10::xthread_replay(sub, case),
+        _ => hist_replay(&C02, case),
+    }
+}
+
 // ------------------------------------------------------------------------------------------ C01
 
 pub static C01_META: PropMeta = PropMeta {
@@ -219,7 +247,7 @@ pub static C02: HistProp = HistProp {
     epoll_each_step: false,
     workers: 8,
     table: None,
-    extra: None,
+    extra: Some(c02_xthread),
 };
 
 // ------------------------------------------------------------------------------------------ C05
